@@ -58,10 +58,9 @@ def _ctx(sheet):
     return aliases.settings_header, _SETTINGS_COLS
 
 
-def c13_headers(pair: int, with_lang: bool, up0: bool, up1: bool, up2: bool, lead: int, trail: int, dsp: int, t0: int, t1: int) -> bool:
+def c13_headers(pair: int, with_lang: bool, up0: bool, up1: bool, up2: bool, lead: bool, trail: bool, dsp0: bool, dsp1: bool, t0: int, t1: int) -> bool:
     """
-    vpre: 0 <= lead <= 2 and 0 <= trail <= 2 and 0 <= dsp <= 3
-    vpre: 33 <= t0 <= 126 and t0 != 58 and 33 <= t1 <= 126 and t1 != 58
+    vpre: 97 <= t0 <= 122 and 65 <= t1 <= 122
     vpost: _ == True
     """
     sheet, canon, variant = ALIAS_PAIRS[pair]
@@ -72,13 +71,16 @@ def c13_headers(pair: int, with_lang: bool, up0: bool, up1: bool, up2: bool, lea
     ups = (up0, up1, up2)
     for i, ch in enumerate(variant):
         v = v + (ch.upper() if i < 3 and ups[i] else ch)
-    v = " " * lead + v + " " * trail
+    if lead:
+        v = "  " + v
+    if trail:
+        v = v + " "
     if with_lang:
         if sheet == "settings":
             return True
         canon_h = canon + "::" + lang
         # optional spaces around the language delimiter (documented)
-        var_h = v + (" " if dsp & 1 else "") + "::" + (" " if dsp & 2 else "") + lang
+        var_h = v + (" " if dsp0 else "") + "::" + (" " if dsp1 else "") + lang
     else:
         canon_h, var_h = canon, v
     _n1, tok1 = process_header(header=canon_h, use_double_colon=True, header_aliases=al, header_columns=cols)
@@ -94,7 +96,7 @@ specialise(
     timeout=300,
     kernel=K[:2],
     shims=(),
-    symbolic="upper/lower case of the first three characters (3 booleans), 0-2 leading and trailing spaces, spaces before/after the language delimiter (symbolic bit pair), language suffix present (boolean) with a 2-character symbolic language token",
+    symbolic="upper/lower case of the first three characters, leading/trailing spaces, spaces before/after the language delimiter, language suffix present (8 symbolic booleans), 2-character symbolic language token",
     bounds="one documented alias pair per instance",
     weight=40,
 )
@@ -122,17 +124,30 @@ def _form(sel: str, multi: str, grp, rep, other: str, int_t: str, lab: str):
     }
 
 
-def c13_types(si: int, mi: int, gi: int, ri: int, oi: int, ii: int, l0: int, l1: int) -> bool:
+def c13_types(fam: int, idx: int, oi: int, l0: int) -> bool:
     """
-    vpre: 0 <= si <= 4 and 0 <= mi <= 3 and 0 <= gi <= 2 and 0 <= ri <= 3 and 0 <= oi <= 3 and 0 <= ii <= 1
-    vpre: 33 <= l0 <= 126 and l0 != 36 and 33 <= l1 <= 126 and l1 != 36
+    vpre: 0 <= idx <= 4 and 0 <= oi <= 3
+    vpre: 97 <= l0 <= 122
     vpost: _ == True
     """
-    lab = S(l0, l1)
+    lab = S(l0, 66)
     other0 = "" if oi == 0 else OTHER_SPELLINGS[0]
     other = "" if oi == 0 else OTHER_SPELLINGS[oi - 1]
+    sel, mul, grp, rep, it = SELECT_SPELLINGS[0], MULTI_SPELLINGS[0], GROUP_SPELLINGS[0], REPEAT_SPELLINGS[0], "integer"
+    if fam == 0:
+        sel = SELECT_SPELLINGS[idx % len(SELECT_SPELLINGS)]
+    elif fam == 1:
+        mul = MULTI_SPELLINGS[idx % len(MULTI_SPELLINGS)]
+    elif fam == 2:
+        grp = GROUP_SPELLINGS[idx % len(GROUP_SPELLINGS)]
+    elif fam == 3:
+        rep = REPEAT_SPELLINGS[idx % len(REPEAT_SPELLINGS)]
+    elif fam == 4:
+        it = ["integer", "int"][idx % 2]
+    else:  # every family at its last spelling together
+        sel, mul, grp, rep, it = SELECT_SPELLINGS[-1], MULTI_SPELLINGS[-1], GROUP_SPELLINGS[-1], REPEAT_SPELLINGS[-1], "int"
     base = _form(SELECT_SPELLINGS[0], MULTI_SPELLINGS[0], GROUP_SPELLINGS[0], REPEAT_SPELLINGS[0], other0, "integer", lab)
-    var = _form(SELECT_SPELLINGS[si], MULTI_SPELLINGS[mi], GROUP_SPELLINGS[gi], REPEAT_SPELLINGS[ri], other, ["integer", "int"][ii], lab)
+    var = _form(sel, mul, grp, rep, other, it, lab)
     s1, w1, _j1 = build_survey(base)
     s2, w2, _j2 = build_survey(var)
     return tree(s1.xml()) == tree(s2.xml()) and w1 == w2
@@ -142,13 +157,13 @@ specialise(
     "C13",
     "b.types",
     c13_types,
-    {"si": [0, 1, 2, 3, 4]},
+    {"fam": [0, 1, 2, 3, 4, 5]},
     timeout=500,
     kernel=K[4:],
     shims=("S1", "S2", "S3", "S4"),
-    symbolic="spelling indices of select_multiple (4), group (3), repeat (4), or_other (4), integer (2) and a 2-character label tracer; select_one spelling fixed per instance",
-    bounds="7-row form using every aliased type family once",
-    weight=200,
+    symbolic="spelling index within the varied family (0..4), or_other spelling index (0..3), symbolic label character",
+    bounds="7-row form using every aliased type family once; the varied family is fixed per instance (select_one, select_multiple, group, repeat, integer, all together)",
+    weight=150,
 )
 
 
@@ -176,13 +191,26 @@ specialise(
     "C13",
     "d.cell-noise",
     c13_cell_noise,
-    {"n": [1, 2, 3]},
+    {"n": [1, 2]},
     timeout=400,
     kernel=(K[3],),
     shims=(),
     symbolic="cell of n symbolic printable characters separated by single spaces; 0-2 leading/trailing spaces, doubled inner spaces (boolean), smart quotes substituted for straight quotes",
-    bounds="n in 1..3",
+    bounds="n in 1..2 (quick); n = 3 thorough",
     weight=60,
+)
+specialise(
+    "C13",
+    "d.cell-noise",
+    c13_cell_noise,
+    {"n": [3]},
+    tiers=("thorough",),
+    timeout=2400,
+    kernel=(K[3],),
+    shims=(),
+    symbolic="cell of 3 symbolic printable characters separated by single spaces; spaces/quotes noise",
+    bounds="n = 3",
+    weight=1200,
 )
 
 PERMS = [(0, 1, 2, 3), (3, 2, 1, 0), (1, 0, 3, 2), (2, 3, 0, 1), (0, 2, 1, 3), (3, 0, 1, 2)]
@@ -191,8 +219,8 @@ COLS = ["type", "name", "label", "relevant"]
 
 def c13_layout(perm: int, extra_col: bool, blank_at: int, n_blank: int, c_blank: int, sheet_swap: bool, l0: int, l1: int) -> bool:
     """
-    vpre: 0 <= perm <= 5 and 0 <= blank_at <= 3 and 0 <= n_blank <= 2 and 0 <= c_blank <= 2
-    vpre: 33 <= l0 <= 126 and l0 != 36 and 33 <= l1 <= 126 and l1 != 36
+    vpre: 0 <= blank_at <= 3
+    vpre: 97 <= l0 <= 122 and 97 <= l1 <= 122
     vpost: _ == True
     """
     lab = S(l0, l1)
@@ -257,11 +285,12 @@ specialise(
     "C13",
     "e.layout",
     c13_layout,
-    {"perm": list(range(len(PERMS)))},
+    {"perm": [1, 3, 5], "n_blank": [0, 2], "c_blank": [0, 1]},
+    reach_if=lambda fx: fx["n_blank"] == 0 and fx["c_blank"] == 0,
     timeout=500,
     kernel=K[2:],
     shims=("S1", "S2", "S3", "S4"),
     symbolic="blank-row insertion index (0..3) and count (0..2) in the survey sheet, blank rows on top of the choices sheet (0..2), unknown plain column present (boolean), sheet order swapped + underscore sheet added (boolean), 2-character label tracer",
-    bounds="column permutation fixed per instance (6 permutations of 4 columns); 4-row survey with an unlabeled group and an image without max-pixels (two row-numbered warnings) and a choice without label",
+    bounds="column permutation (3 of 6 in quick), survey blank-row count and choices blank-row count fixed per instance; 4-row survey with an unlabeled group and an image without max-pixels (two row-numbered warnings) and a choice without label",
     weight=150,
 )
